@@ -239,6 +239,27 @@ pub fn trigger(e: &Ex) -> Option<&'static str> {
 	found
 }
 
+/// structural trigger of a known deviation, given the kind of mismatch: the precedence trigger above, or a `*` next to a
+/// string literal when a type error was expected and a value came out (string repetition, an extension of this
+/// implementation: `"s" * 2`)
+pub fn trigger_for(mismatch_key: &str, e: &Ex) -> Option<&'static str> {
+	if let Some(t) = trigger(e) {
+		return Some(t);
+	}
+	if mismatch_key.contains("expected type error, got value") {
+		let (mut mul, mut string) = (false, false);
+		crate::gen::walk(e, &mut |x| match x {
+			Ex::Bin(_, BinOp::Mul, _) => mul = true,
+			Ex::Str(_) => string = true,
+			_ => {}
+		});
+		if mul && string {
+			return Some("string * number");
+		}
+	}
+	None
+}
+
 /// all single-step simplifications of `e`: a sub-expression replaced by `1`, `null`, or hoisted child
 fn simplifications(e: &Ex) -> Vec<Ex> {
 	let mut out = Vec::new();
